@@ -895,14 +895,14 @@ func (e clientEngine) runOne(t *testing.T, batch string, plan *ClientPlan, fault
 	}
 	rec.Sample = map[string]any{"atp_version": plan.Version, "bad_schema": plan.BadSchema, "workload": wl, "fault": fault, "server_stream_len": streamLen, "strategy": stratName, "steps": out.Steps,
 		"s2c": fmt.Sprintf("cap=%d readmax=%v writemax=%v", plan.S2C.Cap, plan.S2C.ReadMax, plan.S2C.WriteMax)}
-	if out.BubblePanic != "" && !out.Deadlock {
-		rec.Outcome = "infra"
-		rec.Reason = "bubble panic: " + out.BubblePanic
-		return rec
-	}
 	if out.Budget {
 		rec.Outcome = "infra"
-		rec.Reason = "step budget exceeded"
+		rec.Reason = fmt.Sprintf("step budget exceeded (%d steps)", out.Steps)
+		return rec
+	}
+	if out.BubblePanic != "" && !out.Deadlock {
+		rec.Outcome = "infra"
+		rec.Reason = "bubble panic: " + trunc(out.BubblePanic, 3000)
 		return rec
 	}
 	if fault.WriteAt >= 0 && obs.C2S != nil && obs.C2S.WriteFaultFired() && !(fault.Kind != "" && obs.S2C.FaultFired()) {
